@@ -8,7 +8,7 @@ CONSTANTS
   MaxMsgs = 3
   MaxFaults = 2
   MaxDepth = 2
-  MaxBlocks = 3
+  MaxBlocks = 2
   MaxIds = 2
   Cap = 3
   InitDests <- D12
